@@ -49,7 +49,8 @@ func newC08Sys(lazy, limit1 bool) *c08Sys {
 	s.events = []c08Event{
 		{Name: "GET /k1 (cacheable 3s)", Kind: "get", URI: "/k1"},
 		{Name: "GET /k2 (uncacheable)", Kind: "get", URI: "/k2"},
-		{Name: "tick+1", Kind: "tick"},
+		{Name: "tick+1", Kind: "tick", N: 1},
+		{Name: "tick+4 (past the lifetime)", Kind: "tick", N: 4},
 		{Name: "purge /k1", Kind: "purge", URI: "/k1"},
 		{Name: "graceful restart", Kind: "restart"},
 		{Name: "kill during the last operation: its last store write lost", Kind: "crash", N: 1},
@@ -145,7 +146,7 @@ func (s *c08Sys) Apply(ev int) (string, string, string) {
 	}
 	switch e.Kind {
 	case "tick":
-		vtime.Add(1)
+		vtime.Add(int64(e.N))
 		return "tick", "", ""
 	case "purge":
 		_ = server.VerifPurge("c1", "GET a.com "+e.URI)
